@@ -4,7 +4,7 @@
 set -u
 export GOFLAGS=-mod=mod GOPROXY=off GOSUMDB=off GOTOOLCHAIN=local
 P=$1; V=$2
-SRC=/tmp/seed/out/$P/$V
+SRC=${SEEDROOT:-/tmp/seed}/out/$P/$V
 WT=/tmp/seedverify_$P$V
 ID=$P$V
 rm -rf $WT; git -C /repo worktree prune; git -C /repo worktree add --detach $WT HEAD >/dev/null 2>&1 || exit 2
